@@ -347,14 +347,16 @@ SPECS["C14"] = {
 # ---------------------------------------------------------------------------------------------- C12
 def plan_c12(tier, seed):
     if tier == "quick":
-        return checks("main", 8, 5000)
-    return checks("main", 13, 80000) + checks("nohook_avx2", 3, 60000)
+        return checks("main", 8, 5000) + shards("hunt", "marker-hunt-10", 8)
+    return checks("main", 13, 80000) + checks("nohook_avx2", 3, 60000) + shards("hunt", "marker-hunt-500", 16, timeout=7000)
 
 
 SPECS["C12"] = {
     "builds": {
         "main": Build("main", "harness/c12_value.cpp"),
         "nohook_avx2": Build("nohook_avx2", "harness/c12_value.cpp", hook=False, simd="avx2"),
+        # the object of a Value is the hash array: a member name that hashes to the removed-slot marker would vanish from it (see C13)
+        "hunt": Build("hunt", "harness/c13_harray.cpp", san="plain", hook=False),
     },
     "default_build": "main",
     "plan": plan_c12,
@@ -724,7 +726,7 @@ RULE_ADDENDA = {
     "C07": "; one case in three draws look-alike code points and unpaired low-surrogate escapes (legal by the grammar) into the strings",
     "C09": "; near-tie class (midpoints between adjacent doubles cut to 17-21 digits, just below and just above), numerals whose exponent compensates their length "
            "(up to 100,000 zeros), terminators that are non-ASCII units with an ASCII low byte in the 2- and 4-byte runs",
-    "C12": "; two cases in three also merge sized-but-empty temporaries (+= / Merge, copy / move) and assign a container from one of its own descendants (copy / move)",
+    "C12": "; the marker hunt of C13 (member names whose hash equals the removed-slot marker) runs here as well, since an object is a hash array; two cases in three also merge sized-but-empty temporaries (+= / Merge, copy / move) and assign a container from one of its own descendants (copy / move)",
     "C13": "; two cases in three let Insert(key, const Value &) take its value from an entry of the same table",
     "C14": "; two cases in three append copies of own elements (a += a[i], Insert(a[i])) and compare long near-equal operands (16-75 units, one differing unit anywhere) "
            "and views sharing their start, with the ordering operators against a lexicographic model",
